@@ -16,7 +16,7 @@ def run_case(spec):
 def check(rep, tier, seed, specs=None, n_override=None):
     quick = tier == 'quick'
     if specs is None:
-        nf, nr, no = (2400, 1200, 400) if quick else (40000, 120000, 20000)
+        nf, nr, no = (2400, 1200, 3000) if quick else (40000, 120000, 60000)
         if n_override:
             nf, nr, no = n_override, 0, max(10, n_override // 10)
         specs = cvplan.specs('C04', seed, nf, nr)
